@@ -156,7 +156,7 @@ Section Unknowns.
   Theorem expand_macro_undeclared fuel st buf t math :
     assoc (txt t) (macros st) = None ->
     exists st',
-      expand_macro T rd rec fuel st buf t math = Ok (st', ([ActionT (pos t)], skip_space buf)) /\
+      expand_macro T rd rec fuel st buf t math = Ok (st', ([ActionT (pos t)], skip_ctl buf)) /\
       unknowns st' = (if math then unknowns st else add_unknown (unknowns st) (txt t)) /\
       macros st' = macros st /\ environs st' = environs st.
   Proof.
@@ -170,7 +170,7 @@ Section Unknowns.
   Theorem expand_macro_declared fuel st buf t math mac :
     assoc (txt t) (macros st) = Some mac ->
     expand_macro T rd rec fuel st buf t math =
-    expand_arguments T rd rec fuel st (skip_space buf) mac (pos t).
+    expand_arguments T rd rec fuel st (skip_ctl buf) mac (pos t).
   Proof. intros H. unfold expand_macro. rewrite H. reflexivity. Qed.
 End Unknowns.
 
